@@ -740,12 +740,14 @@ impl<'a> Compiler<'a> {
                                                 index: stack_start + i as VmIndex,
                                             };
                                     }
-                                    x => ice!(
-                                        "Expected record as last expression of recursive binding `{}`: {:?}\n{}",
-                                        closure.name.name,
-                                        x,
-                                        closure.expr
-                                    ),
+                                    // Only functions and constructions of records or variants
+                                    // can be allocated before their fields are known
+                                    _ => {
+                                        return Err(Error::Message(format!(
+                                            "Recursive binding `{}` must be a function, a record or a variant",
+                                            closure.name.name.declared_name(),
+                                        )));
+                                    }
                                 }
                             } else {
                                 let (function_index, vars, cf) = self.compile_lambda(
